@@ -64,7 +64,24 @@ def discipline(ctx: Ctx, rule="R-C15-DISCIPLINE") -> None:
     ctx.check(all(len(v) == 1 for v in callers.values()) and (C.arg(callers["enqueue"][0], 3, "in_front") is None or C.is_const(C.arg(callers["enqueue"][0], 3, "in_front"), False))
               and C.is_const(C.arg(callers["reject"][0], 3, "in_front"), True) and C.is_const(C.arg(callers["requeue"][0], 3, "in_front"), True), rule, C.REDIS_BROKER, "enqueue pushes behind, reject/requeue push in front", "in_front only for returned messages",
               "redis enqueue/reject/requeue do not use in_front as 'returned messages go in front'", instance="in_front usage")
+    # __put_in_queue only adds: an insertion that first removes an already waiting copy moves that message behind everything enqueued meanwhile
+    rem = [n for n in g.calls() if isinstance(n.ast.func, ast.Attribute) and n.ast.func.attr in ("lrem", "zrem", "lpop", "rpop", "ltrim", "delete")]
+    ctx.check(not rem, rule, piq, "redis __put_in_queue only inserts", "no removal from the queue while inserting",
+              f"redis __put_in_queue also removes ({[unparse(r_.ast)[:60] for r_ in rem]}): putting a message whose id is already waiting takes the waiting copy out and re-inserts it at the end - "
+              "a message that is re-enqueued while waiting is overtaken by everything that arrived in between, indefinitely if that repeats", instance="put_in_queue inserts only")
     consumption_end = ret_end
+    # the name handed out is the element the scan loop is looking at (scan order = delivery order): no index into the page
+    fm = ctx.func(f"{C.REDIS_CONS}.__fetch_message_name")
+    scan = [lp for lp in C.own_nodes(fm) if isinstance(lp, ast.For) and isinstance(lp.target, ast.Name)]
+    hand_outs = [r_ for r_ in C.own_returns(fm) if r_.value is not None and not C.is_const(r_.value, None)]
+    ok_scan = bool(scan) and bool(hand_outs)
+    for r_ in hand_outs:
+        inside = [lp for lp in scan if any(x is r_ for x in ast.walk(lp))]
+        src = C.inline_locals(fm, r_.value, calls="all") or r_.value
+        ok_scan = ok_scan and bool(inside) and inside[0].target.id in C.names_in(src) and not any(isinstance(x, ast.Subscript) for x in ast.walk(src))
+    ctx.check(ok_scan, rule, fm, "the name handed out is the one the scan is looking at", "return inside the scan loop, of the loop variable",
+              f"redis __fetch_message_name hands out {[unparse(r_.value)[:40] for r_ in hand_outs]} - not (only) the element the oldest-first scan is looking at: an element picked by index "
+              "from the page ignores the scan order (e.g. the newest of the window first), so older waiting messages are overtaken", instance="hand-out follows the scan")
     # fetch window
     f = ctx.func(f"{C.REDIS_CONS}.__fetch_message_name")
     lists = [fi for fi in f.nested.values() if any(isinstance(c, ast.Call) and isinstance(c.func, ast.Attribute) and c.func.attr == "lrange" for c in ast.walk(fi.node))]
